@@ -50,7 +50,9 @@ def run_simple(ctx, rep, path, op, opaque=(), arg_doms=None):
 def check_no_panic(ctx, rep, tier):
     prog = ctx.prog
     handwritten = [f for f in ctx.facts['fns'] if not f.get('derived')]
-    inv = panic_inventory(ctx, handwritten)
+    # formatting impls (Debug / Display ...) are outside the statement's list of operations: neither analysed nor inventoried
+    fmt_impls = {f['path'] for f in handwritten if (f.get('impl_trait') or '').startswith('core::fmt::')}
+    inv = panic_inventory(ctx, [f for f in handwritten if f['path'] not in fmt_impls and f.get('closure_of') not in fmt_impls])
     rep.analysed['trap_site_inventory'] = [{'fn': a, 'kind': b, 'at': span_line(c)} for a, b, c in inv]
     if not (ctx.facts['overflow_checks'] and ctx.facts['debug_assertions']) and ctx.facts['_flavour'] == 'dev':
         rep.finding('C08 build-flags', 'dev-profile facts were not built with overflow checks and debug assertions on')
